@@ -63,11 +63,14 @@ class Proof:
 _slice_re = re.compile(r'^[ \t]*//@slice\s+(\S+)\s+(fn|struct|frag)\s+(\S+)(.*)$', re.M)
 
 
-def expand_template(tmpl_text, rules, slices_out, mutate=None):
+def expand_template(tmpl_text, rules, slices_out, mutate=None, workroot=None):
     """Expand //@slice directives. rules: {slice-name: [(rule,arg),...]}.
     mutate: optional (regex, replacement) applied to every *sliced* text (self-test mutants)."""
     def rep(mo):
         rel, kind, name, rest = mo.group(1), mo.group(2), mo.group(3), mo.group(4).strip()
+        if rel.startswith('@GEN/'):
+            # a file generated on this run from /repo by the repository's own generator script (see tools/gen.py)
+            rel = os.path.join(workroot, 'gen', rel[5:])
         opts = dict(kv.split('=', 1) for kv in rest.split() if '=' in kv and not kv.startswith('/'))
         key = opts.get('key', name)
         rl = rules.get(key, ())
@@ -256,7 +259,7 @@ def run_proof(proof, workroot, mutate=None, keep=False, quiet=False):
         with open(os.path.join(VERIF, proof.impl)) as f:
             tmpl = f.read()
         try:
-            body = expand_template(tmpl, proof.rules, slices, mut)
+            body = expand_template(tmpl, proof.rules, slices, mut, workroot)
         except slicer.SliceError as e:
             raise Undecided('slice: %s' % e)
         if mutate is not None and not mut[2]:
